@@ -120,8 +120,8 @@ def run_c04(ctx):
     """sig = property monitor on the whole application (mutants of every kind through CheckTx and
     directly in blocks on a twin); sigm = correspondence of OLP/Sig/Model.lean with RawBytes(),
     ValidateBasic + key handlers, and the OLVM validateSigner, plus component-level monitors"""
-    return [run_olh(ctx, 'sig', twin_args(ctx, ['-histories', '200', '-blocks', '14', '-maxtxs', '6'], ['-histories', '3000', '-blocks', '24', '-maxtxs', '8'])),
-            run_olh(ctx, 'sigm', ['-corpus', os.path.join(ctx['root'], 'corpus', 'C04')] + twin_args(ctx, ['-raw', '15000', '-vb', '20000', '-olvm', '84'], ['-raw', '300000', '-vb', '400000', '-olvm', '672']))]
+    return [run_olh(ctx, 'sig', twin_args(ctx, ['-histories', '200', '-blocks', '14', '-maxtxs', '6'], ['-histories', '2500', '-blocks', '24', '-maxtxs', '8'])),
+            run_olh(ctx, 'sigm', ['-corpus', os.path.join(ctx['root'], 'corpus', 'C04')] + twin_args(ctx, ['-raw', '15000', '-vb', '20000', '-olvm', '84'], ['-raw', '300000', '-vb', '300000', '-olvm', '672']))]
 
 
 def run_c19(ctx):
@@ -342,7 +342,7 @@ PROPS = {
         required_theorems=['validateBasic_iff', 'validateBasic_never_panics', 'signature_count_mismatch_rejected', 'substituted_signer_rejected',
                            'unverified_signature_rejected', 'accepted_signatures_fix_signers', 'reordered_signatures_rejected',
                            'unser_ser', 'ser_injective', 'serBytes_injective', 'mutation_changes_signed_bytes', 'tamper_needs_fresh_signatures', 'tamper_rejected',
-                           'authentic', 'no_acceptance_without_verification', 'handler_needs_wellformed_key', 'unusable_key_rejected',
+                           'authentic', 'accepted_signatures_bind_message', 'accepted_signatures_bind_transaction', 'no_acceptance_without_verification', 'handler_needs_wellformed_key', 'unusable_key_rejected',
                            'checkTx_admits_only_validated', 'deliverTx_executes_only_validated', 'invalid_signature_delivery_without_effect', 'sigAdmit_basic_iff',
                            'olvm_accepted_iff', 'olvm_sender_recovered', 'olvm_envelope_determined', 'olvm_covered', 'olvm_never_panics', 'olvm_memo_canonical', 'olvm_memo_pins_nonce',
                            'olvm_malformed_signature_rejected', 'olvm_missing_chainid_rejected', 'olvm_foreign_envelope_rejected', 'olvm_foreign_signer_key_rejected',
@@ -355,7 +355,7 @@ PROPS = {
             'premise ValidatesSignatures of the admission theorems (handler.Validate fails when the signature predicate of the kind is false) is tied to the source by the regenerated table validateRows: one row per Go type implementing action.Tx, classified by the shape of its Validate, discharged by decide (OLP/Props/C04Facts.lean); the entry-point discipline (Validate before ProcessCheck/ProcessDeliver/ProcessFee, failure returned) by validateGuards / sessionRule',
             'the shell model (checkTx / deliverTx) is tied to app/controller.go by the `shell` engine of C01/C05-C08; RawBytes(), ValidateBasic with the four key handlers, and the OLVM validateSigner are tied by the `sigm` engine on every run',
         ],
-        model_limits='the library primitives (ed25519 / secp256k1 / go-ethereum / btcec point parsing, address hashes, signature verification, EIP-155 sender recovery) are uninterpreted parameters answered by the real libraries in the correspondence run; the JSON *decoder* is not modelled (unser is a proof device; acceptance of non-canonical encodings is C05); Go < 1.22 escapes \\b and \\f as \\u0008 / \\u000c, so nodes built with different toolchains would disagree on RawBytes() of such memos (outside the model); internal transactions created by block hooks (ExpireProposals / FinalizeProposals) do not pass Validate and are outside this property; OLVM: what remains outside the full-strength statements is (a) the cryptography itself (EthLib.sender is a parameter; go-ethereum enforces low-s) and (b) that the public key named in the signature entry is pinned through its address only (olvm_signer_key_through_address)'),
+        model_limits='the library primitives (ed25519 / secp256k1 / go-ethereum / btcec point parsing, address hashes, signature verification, EIP-155 sender recovery) are uninterpreted parameters answered by the real libraries in the correspondence run; that a signature accepted for one message is accepted for no other message under the same key (hypothesis MessageBinding of accepted_signatures_bind_message / _transaction, the single-signature consequence of the unforgeability hypothesis of tamper_rejected) is not provable in the model and is VALIDATED per algorithm on every run by the sigm monitor accepted-signature-survives-message-change:<alg>:<position class> (message changed inside the first 32 bytes, at and after byte 32, in the last byte, one byte appended, one dropped) and at application level by the mutant classes on originals signed with ED25519, SECP256K1 and BTCEC accounts (ETHSECP cannot sign a transaction: go-ethereum verifies 32-byte digests only); the BTCEC oracle of sigm is defined independently of the handler (ECDSA over SHA-256(msg) with btcec directly), signatures are produced by two kinds of client (libraries as specified / the repo handlers); the JSON *decoder* is not modelled (unser is a proof device; acceptance of non-canonical encodings is C05); Go < 1.22 escapes \\b and \\f as \\u0008 / \\u000c, so nodes built with different toolchains would disagree on RawBytes() of such memos (outside the model); internal transactions created by block hooks (ExpireProposals / FinalizeProposals) do not pass Validate and are outside this property; OLVM: what remains outside the full-strength statements is (a) the cryptography itself (EthLib.sender is a parameter; go-ethereum enforces low-s) and (b) that the public key named in the signature entry is pinned through its address only (olvm_signer_key_through_address)'),
     'C19': dict(
         lean_modules=['OLP.Props.C19'], namespaces=['OLP.Props.C19'],
         required_theorems=['verdict_iff_threshold', 'required_is_ceiling', 'votes_are_of_currently_active', 'verdict_from_active_votes_alone',
